@@ -238,6 +238,8 @@ impl<'a> Gen<'a> {
         let k = if d == 0 { self.r.below(3) } else { self.r.below(12) };
         match k {
             0 | 1 => E::Number(self.small_int()),
+            // a parameter declared through a type alias keeps the alias as its type
+            2 if self.allow_params && self.r.chance(1, 4) => self.param("amt", Type::Custom("Amount".into())),
             2 if self.allow_params => self.param("n", Type::Int),
             2 => E::Number(self.small_int()),
             3 | 4 => bx(tir::BuiltInOp::Add(self.int(d - 1), self.int(d - 1))),
@@ -613,6 +615,7 @@ pub fn arg_for(r: &mut Rng, ty: &Type) -> ArgValue {
         Type::Bytes => ArgValue::Bytes(vec![r.below(4) as u8; *r.pick(&[0usize, 4, 28, 28, 28, 28, 32])]),
         Type::Address => ArgValue::Address(addr_bytes(*r.pick(&[0xA1u8, 0xB2, 0xC3]))),
         Type::UtxoRef => ArgValue::UtxoRef(UtxoRef { txid: vec![5; 32], index: r.below(3) as u32 }),
+        Type::Custom(n) if n == "Amount" => ArgValue::Int(1 + r.below(5_000_000) as i128),
         _ => match r.below(3) {
             0 => ArgValue::Int(r.range(0, 9) as i128),
             1 => ArgValue::String("u".into()),
